@@ -112,7 +112,10 @@ impl builtins::Command for ReadCommand {
         let ifs = context.shell.ifs().into_owned();
 
         // Convert timeout to Duration.
-        let timeout = self.timeout_in_seconds.map(Duration::from_secs_f64);
+        // N.B. `Duration::from_secs_f64` panics on values it cannot represent (huge, NaN).
+        let timeout = self
+            .timeout_in_seconds
+            .map(|secs| Duration::try_from_secs_f64(secs).unwrap_or(Duration::MAX));
 
         // Perform the read operation (potentially with timeout).
         let read_result = self.read_line(input_stream, context.stderr(), timeout)?;
@@ -334,7 +337,8 @@ impl InputReader {
     ) -> Self {
         Self {
             input,
-            deadline: timeout.map(|t| Instant::now() + t),
+            // N.B. A timeout too large to represent as a deadline is no deadline at all.
+            deadline: timeout.and_then(|t| Instant::now().checked_add(t)),
             buffer: [0; 1],
             _term_mode: term_mode,
         }
